@@ -158,7 +158,8 @@ MArrive(p, k) ==
   /\ net' = [net EXCEPT ![<<p, k>>].loc = "held", ![<<p, k>>].id2 = nextId[K + k]]
   /\ nextId' = [nextId EXCEPT ![K + k] = @ + 1]
   /\ Emit(<<[t |-> "add", node |-> k, chan |-> K + k, id |-> nextId[K + k], hash |-> p]>>)
-  /\ UNCHANGED <<dst, dparts, dn, evq, ticks, saved, dirty, decided, paid, nDup, nRestart, nSend>>
+  /\ dirty' = TRUE      \* the commitment exchange that carries the HTLC to B_k updates A's monitor
+  /\ UNCHANGED <<dst, dparts, dn, evq, ticks, saved, decided, paid, nDup, nRestart, nSend>>
   /\ H([op |-> "arrive", p |-> p, k |-> k]) /\ quiet' = FALSE /\ F({})
 
 \* B_k cannot forward (its channel to D is unusable): it fails the part back
@@ -166,7 +167,8 @@ MFailHop(p, k) ==
   /\ Idle /\ net[<<p, k>>].loc = "out"
   /\ net' = [net EXCEPT ![<<p, k>>].loc = "retFail", ![<<p, k>>].origin = 1]
   /\ Emit(<<[t |-> "failmsg", chan |-> k, adder |-> 0, id |-> net[<<p, k>>].id]>>)
-  /\ UNCHANGED <<dst, dparts, dn, evq, ticks, saved, dirty, nextId, decided, paid, nDup, nRestart, nSend>>
+  /\ dirty' = TRUE
+  /\ UNCHANGED <<dst, dparts, dn, evq, ticks, saved, nextId, decided, paid, nDup, nRestart, nSend>>
   /\ H([op |-> "failhop", p |-> p, k |-> k]) /\ quiet' = FALSE /\ F({})
 
 \* D claims: only a complete set of parts (all-or-nothing recipient)
@@ -226,8 +228,11 @@ MDup(p, k) ==
 
 \* the removal becomes irrevocable: finalize_claims / fail_htlc
 Blamed(k, origin) == IF origin = 1 THEN K + k ELSE 0
+SentQueued(p) == \E i \in 1..Len(evq) : evq[i].p = p /\ evq[i].k = "sent"
 MCommit(p, k) ==
   /\ Idle /\ net[<<p, k>>].loc \in {"dlvFul", "dlvFail"}
+  \* the monitor update that makes a fulfil irrevocable is held back until the user has handled PaymentSent
+  /\ net[<<p, k>>].loc = "dlvFul" => ~SentQueued(p)
   /\ net' = [net EXCEPT ![<<p, k>>].loc = "done"]
   /\ dirty' = TRUE
   /\ IF net[<<p, k>>].loc = "dlvFul"
@@ -275,5 +280,5 @@ View == <<svars, dvars, obs, quiet, nops, feat>>
 \* guards of PaySend, stated on the design state for readability of counterexamples)
 DesignSane == \A p \in P : (dst[p] \in {"none", "gone"}) => dparts[p] = {}
 
-EmitScripts == (quiet /\ Idle /\ Len(hist) > 3) => PrintT(<<"SCRIPT", ToJson([k |-> K, ops |-> hist])>>)
+EmitScripts == (quiet /\ Idle /\ Len(hist) > 3) => PrintT(<<"SCRIPT", ToJson([k |-> K, ops |-> hist, feat |-> feat])>>)
 =============================================================================
